@@ -119,6 +119,38 @@ def analyse_update(ctx, modname, clsname, name):
                 # the old value compared must be the one read before the store
                 if f.defs_reaching(oname, t) == [on]:
                     changed.append((t, f.branch(t, "true" if isinstance(t.ast.ops[0], ast.NotEq) else "false"), f.branch(t, "false" if isinstance(t.ast.ops[0], ast.NotEq) else "true")))
+    # other spellings of "did the record change": comparing self.X with the new record before the store, directly in the
+    # test or through a flag (`changed = self.X != new` ... `if changed:`)
+    attrs = {a for _, a in stores}
+
+    def prev_vs_new(e):
+        """(attr, is_noteq) when e is `self.<attr> ==/!= <param>` (either order)"""
+        if isinstance(e, ast.Compare) and len(e.ops) == 1 and isinstance(e.ops[0], (ast.NotEq, ast.Eq)):
+            l, r = e.left, e.comparators[0]
+            for x, y in ((l, r), (r, l)):
+                if isinstance(x, ast.Attribute) and isinstance(x.value, ast.Name) and x.value.id == "self" and x.attr in attrs and isinstance(y, ast.Name) and y.id == data_param:
+                    return x.attr, isinstance(e.ops[0], ast.NotEq)
+        return None
+
+    def before_store(n, attr):
+        sn = [x for x, a_ in stores if a_ == attr]
+        return bool(sn) and all(g.dominates(n.id, x.id) and not g.exists_path(x.id, n.id) for x in sn)
+
+    for t in f.tests(lambda e: prev_vs_new(e) is not None):
+        attr, ne = prev_vs_new(t.ast)
+        if before_store(t, attr):
+            olds.append((t, None, attr))
+            changed.append((t, f.branch(t, "true" if ne else "false"), f.branch(t, "false" if ne else "true")))
+    for n in g.nodes:
+        if n.kind == "stmt" and isinstance(n.ast, ast.Assign) and len(n.ast.targets) == 1 and isinstance(n.ast.targets[0], ast.Name) and prev_vs_new(n.ast.value) is not None:
+            attr, ne = prev_vs_new(n.ast.value)
+            flag = n.ast.targets[0].id
+            if not before_store(n, attr):
+                continue
+            olds.append((n, None, attr))
+            for t in f.tests(lambda e: isinstance(e, ast.Name) and e.id == flag):
+                if f.defs_reaching(flag, t) == [n]:
+                    changed.append((t, f.branch(t, "true" if ne else "false"), f.branch(t, "false" if ne else "true")))
     return dict(fn=f, data_param=data_param, stores=stores, olds=olds, notifies=notifies, changed=changed)
 
 
